@@ -232,9 +232,16 @@ def run_r1(ctx, rule):
     c = cfg(f)
     okall = True
     for ex in c.exits:
-        g = guards.holds(f, ex, lambda fa: fa[0] == "bool" and fa[2] is False and mentions(fa[1], lambda x: is_call(x, "overflowing_sub") and x[3] and x[3][0] == fld("valid_len") and x[3][1] == ("l", 2)))
+        def no_underflow(fa):
+            sub_of = lambda x, name: is_call(x, name) and x[3] and x[3][0] == fld("valid_len") and x[3][1] == ("l", 2)
+            if fa[0] == "bool" and fa[2] is False and mentions(fa[1], lambda x: sub_of(x, "overflowing_sub")):
+                return True  # `let (v, overflow) = valid_len.overflowing_sub(n); if overflow { cold }`
+            if fa[0] == "eq" and fa[2] == 1 and fa[1][0] == "discr" and mentions(fa[1], lambda x: sub_of(x, "checked_sub")):
+                return True  # the Some edge of valid_len.checked_sub(n)
+            return guards.cmp_matches(fa, "Le", lambda x: x == ("l", 2), lambda x: x == fld("valid_len"))  # n <= valid_len
+        g = guards.holds(f, ex, no_underflow)
         okall = okall and bool(g)
-    rule.check(okall, "advance/returns-only-without-overflow", "advance(n) returns only on the no-overflow edge of valid_len.overflowing_sub(n)", f.loc())
+    rule.check(okall, "advance/returns-only-without-overflow", "advance(n) returns only where valid_len - n did not underflow (no-overflow edge of overflowing_sub, Some edge of checked_sub, or behind n <= valid_len)", f.loc())
 
 
 def run_r2(ctx, rule):
